@@ -202,7 +202,11 @@ func (s *session) recover() (err error) {
 	}
 
 	s.manifestFd = fd
-	s.setVersion(rec, staging.finish(false))
+	// The recovered tables are all new to the reference loop, list them in
+	// rec so that the delta sent by setVersion references each of them once.
+	v := staging.finish(false)
+	v.fillRecord(rec)
+	s.setVersion(rec, v)
 	s.setNextFileNum(rec.nextFileNum)
 	s.recordCommited(rec)
 	return nil
@@ -235,10 +239,9 @@ func (s *session) commit(r *sessionRecord, trivial bool) (err error) {
 		s.manifestErr = false
 	}
 
-	if s.manifest == nil {
-		// manifest journal writer not yet created, create one
-		err = s.newManifest(r, nv)
-	} else if s.manifest.Size() >= s.o.GetMaxManifestFileSize() {
+	if s.manifest == nil || s.manifest.Size() >= s.o.GetMaxManifestFileSize() {
+		// The manifest journal writer is not yet created or the manifest
+		// is too large; create a new one.
 		// Don't pass r itself to avoid over-reference table file, but keep
 		// the journal and sequence numbers carried by r, otherwise they would
 		// be lost from both the new manifest and the session state.
